@@ -1002,6 +1002,10 @@ class Libs:
         if cls in (self._float, self._bool, self._tuple, self._list, self._dict):
             return isinstance(obj, {self._float: float, self._bool: bool, self._tuple: tuple, self._list: list,
                                     self._dict: dict}[cls])
+        if isinstance(cls, (DataT, Sym, ConstT, AbstractWavelet, PyInstance, str, int, float, list, dict)) or cls is None:
+            # a value, not a class: Python raises
+            raise PyExc('TypeError', 'isinstance() arg 2 must be a type, a tuple of types, or a union',
+                        loc=self.interp.loc())
         raise AnalysisError('unknown-construct', 'isinstance against %r at %s' % (cls, self.interp.loc()))
 
     # --------------------------------------------------------------- torch
